@@ -58,6 +58,10 @@ const (
 	// freeServiceVirtualIP is keyed by the deleted instance's own name and only looks at instances of that
 	// name: the assignment of a service is freed while proxies targeting it still advertise it.
 	verifC07KeyVIPFreed = "C07/vip-freed-under-instance-name"
+	// an instance registered again under the same node and service ID with ANOTHER service name or kind: the store
+	// overwrites the row and adds what the new shape implies, but retracts nothing the old shape contributed except the
+	// connect-enabled marker (kind-service-names row of the old (kind, name), ServiceName of the instance's checks)
+	verifC07KeyInPlaceRename = "C07/in-place-name-or-kind-change-keeps-old-name-rows"
 	// updateMeshTopology: `mapping := existing.DeepCopy()` shadows the outer variable; the row is replaced by
 	// one that references only the registering instance.
 	verifC07KeyRefsLost = "C07/mesh-topology-refs-lost"
@@ -88,7 +92,7 @@ const (
 var verifC07Cfg = &vs.C07Cfg{
 	Shared: &vs.Cfg{Session: 3, Catalog: 36, Dereg: 22, Txn: 12, Config: 14, Coord: 5, SysMeta: 1, Killer: 3,
 		TxnCatalog: true, Peers: true, Connect: true, Rename: true, SessionChecks: true, MaxTxnOps: 4},
-	SharedW: 46, ProxyW: 12, LastW: 14, GatewayW: 11, RenameW: 6, PeerW: 6, DestW: 5, MultiGwW: 4,
+	SharedW: 46, ProxyW: 12, LastW: 14, GatewayW: 11, RenameW: 6, PeerW: 6, DestW: 5, MultiGwW: 4, MorphW: 6,
 }
 
 type verifC07Machine struct {
@@ -97,6 +101,11 @@ type verifC07Machine struct {
 	w       *vs.World
 	view    *verifC07View
 	excused map[string]bool // entities already reported under a known finding: their consequences are not re-reported
+	renamed []*structs.ServiceNode // local instances this step registers again with another name / kind (their OLD rows)
+	// what such instances contributed under their old shape, kept for the rest of the case: the leftovers may only show
+	// once the last regular contributor of the same row goes away
+	taintKSN map[string]bool // kind|name
+	taintUID map[string]bool // node/service-id of the instance
 }
 
 func verifC07New(f verifkit.F, c *verifkit.Case) *verifC07Machine {
@@ -119,6 +128,32 @@ func (m *verifC07Machine) report(key, entity, format string, args ...interface{}
 	}
 }
 
+// verifC07RegisteredServices lists (node, service id, service name, kind) of the LOCAL service registrations an op carries.
+func verifC07RegisteredServices(op *vs.Op) [][5]string {
+	var out [][5]string
+	switch op.Kind {
+	case vs.Register:
+		if r := op.P.Reg; r.PeerName == "" && r.Service != nil {
+			id := r.Service.ID
+			if id == "" {
+				id = r.Service.Service
+			}
+			out = append(out, [5]string{r.Node, id, r.Service.Service, string(r.Service.Kind), r.Service.Proxy.DestinationServiceName})
+		}
+	case vs.Txn:
+		for _, t := range op.P.Txn {
+			if t.Service != nil && t.Service.Service.PeerName == "" && (t.Service.Verb == api.ServiceSet || t.Service.Verb == api.ServiceCAS) {
+				id := t.Service.Service.ID
+				if id == "" {
+					id = t.Service.Service.Service
+				}
+				out = append(out, [5]string{t.Service.Node, id, t.Service.Service.Service, string(t.Service.Service.Kind), t.Service.Service.Proxy.DestinationServiceName})
+			}
+		}
+	}
+	return out
+}
+
 func verifC07OpClass(op *vs.Op) string {
 	switch op.Kind {
 	case vs.Register:
@@ -139,6 +174,17 @@ func verifC07OpClass(op *vs.Op) string {
 
 func (m *verifC07Machine) step(op *vs.Op) {
 	prev := m.view
+	m.renamed = nil
+	for _, r := range verifC07RegisteredServices(op) {
+		if old := prev.svcByKey[verifC07SvcKey("", r[0], r[1])]; old != nil && (old.ServiceName != r[2] || string(old.ServiceKind) != r[3] || old.ServiceProxy.DestinationServiceName != r[4]) {
+			m.renamed = append(m.renamed, old)
+			if m.taintKSN == nil {
+				m.taintKSN, m.taintUID = map[string]bool{}, map[string]bool{}
+			}
+			m.taintKSN[old.ServiceName] = true // by name: instances of several kinds under one name leave rows of either kind behind
+			m.taintUID[structs.UniqueID(old.Node, old.CompoundServiceID().String())] = true
+		}
+	}
 	res := vs.Apply(m.w.Store, op)
 	cur := verifC07Snapshot(m.w.Store)
 	m.view = cur
@@ -499,7 +545,13 @@ func (m *verifC07Machine) checkR1R2(prev, cur *verifC07View, op *vs.Op) {
 			if sn == nil {
 				m.report("C07/R1/check-without-service", ent, "after %s: check %s/%s is scoped to service instance %q which does not exist", op.Desc, ck.Node, ck.CheckID, ck.ServiceID)
 			} else if ck.ServiceName != sn.ServiceName {
-				m.report("C07/R1/check-service-name-differs", ent, "after %s: check %s/%s says service name %q, instance %s is %q", op.Desc, ck.Node, ck.CheckID, ck.ServiceName, sn.ServiceID, sn.ServiceName)
+				key := "C07/R1/check-service-name-differs"
+				for _, old := range m.renamed {
+					if ck.PeerName == "" && strings.EqualFold(old.Node, ck.Node) && old.ServiceID == ck.ServiceID && ck.ServiceName == old.ServiceName {
+						key = verifC07KeyInPlaceRename
+					}
+				}
+				m.report(key, ent, "after %s: check %s/%s says service name %q, instance %s is %q", op.Desc, ck.Node, ck.CheckID, ck.ServiceName, sn.ServiceID, sn.ServiceName)
 			}
 		}
 	}
@@ -530,6 +582,9 @@ func (m *verifC07Machine) checkKSN(cur *verifC07View, op *vs.Op) {
 				key = verifC07KeyConnectEnabledStale // nothing was deleted in this step: an in-place update dropped the last connect-enabled instance
 			case kind == string(structs.ServiceKindDestination) && after == vs.ConfigSet+"/"+structs.ServiceDefaults:
 				key = verifC07KeyDestinationStale
+			}
+			if m.taintKSN[k[strings.Index(k, "|")+1:]] && kind != string(structs.ServiceKindConnectEnabled) && kind != string(structs.ServiceKindDestination) {
+				key = verifC07KeyInPlaceRename
 			}
 			m.report(key, "ksn:"+k, "after %s: kind-service-names holds %q which nothing in the base tables or config entries implies", op.Desc, k)
 		}
@@ -653,13 +708,28 @@ func (m *verifC07Machine) checkTopo(prev, cur *verifC07View, op *vs.Op) {
 			}
 			continue
 		}
+		// references left behind by an instance that this step (or an earlier, already counted one) registered again in
+		// place as something that is no proxy any more / a proxy for another destination
+		renamedRef := func(uid string) bool { return m.taintUID[uid] }
 		if len(ex.must[pair]) == 0 && len(ex.may[pair]) == 0 {
-			m.report("C07/R3/mesh-topology/stale-link/after="+after, ent, "after %s: mesh-topology holds link %s (refs %v) which no local proxy instance and no ingress gateway link declares", op.Desc, pair, verifC07SortedKeys(refs))
+			key := "C07/R3/mesh-topology/stale-link/after=" + after
+			all := len(refs) > 0
+			for uid := range refs {
+				all = all && renamedRef(uid)
+			}
+			if all {
+				key = verifC07KeyInPlaceRename
+			}
+			m.report(key, ent, "after %s: mesh-topology holds link %s (refs %v) which no local proxy instance and no ingress gateway link declares", op.Desc, pair, verifC07SortedKeys(refs))
 			continue
 		}
 		for _, uid := range verifC07SortedKeys(refs) {
 			if !ex.must[pair][uid] && !ex.may[pair][uid] {
-				m.report("C07/R3/mesh-topology/stale-ref/after="+after, ent, "after %s: link %s references %s which does not declare it (any more)", op.Desc, pair, uid)
+				key := "C07/R3/mesh-topology/stale-ref/after=" + after
+				if renamedRef(uid) {
+					key = verifC07KeyInPlaceRename
+				}
+				m.report(key, ent, "after %s: link %s references %s which does not declare it (any more)", op.Desc, pair, uid)
 			}
 		}
 	}
@@ -684,10 +754,17 @@ func (m *verifC07Machine) checkGateways(prev, cur *verifC07View, op *vs.Op) {
 		if g.service == structs.WildcardSpecifier {
 			if !ge.wild[g.port] {
 				m.report("C07/R3/gateway-services/unjustified-wildcard-marker/gwkind="+g.gwKind+"/after="+after, ent, "after %s: wildcard marker row %+v but the entry has no wildcard at that port", op.Desc, g)
+			} else if want := ge.attrs[fmt.Sprintf("%s|%d", g.service, g.port)]; g.attrs != want {
+				m.report("C07/R3/gateway-services/row-settings-differ-from-entry/gwkind="+g.gwKind+"/after="+after, ent, "after %s: wildcard marker row of %s carries %s, its config entry says %s", op.Desc, g.gateway, g.attrs, want)
 			}
 			continue
 		}
 		if ge.explicit[fmt.Sprintf("%s|%d", g.service, g.port)] {
+			// the row repeats the link's settings (hosts, protocol, TLS files, SNI): it is what the proxy configuration
+			// of the gateway is generated from, so it must say what the entry says
+			if want := ge.attrs[fmt.Sprintf("%s|%d", g.service, g.port)]; !g.fromWildcard && g.attrs != want {
+				m.report("C07/R3/gateway-services/row-settings-differ-from-entry/gwkind="+g.gwKind+"/after="+after, ent, "after %s: row %s -> %s (port %d) carries %s, the gateway's config entry says %s", op.Desc, g.gateway, g.service, g.port, g.attrs, want)
+			}
 			continue
 		}
 		if ge.wild[g.port] && present(g.service) {
@@ -810,12 +887,12 @@ func (m *verifC07Machine) checkVIPs(prev, cur *verifC07View, op *vs.Op) {
 			case err != nil:
 				m.report("C07/R4/lookup-error", ent, "VirtualIPForService(%q,%q): %v", sn.PeerName, dest, err)
 			case got == "":
-				m.report(verifC07KeyVIPFreed, ent, "after %s: instance %s/%s (peer %q) advertises consul-virtual=%s for service %q, which has NO assignment (row freed while still advertised; free list %v)", op.Desc, sn.Node, sn.ServiceID, sn.PeerName, adv.Address, dest, cur.free)
+				m.report(m.vipFreedKey(prev, cur, op, sn.PeerName, dest, after), ent, "after %s: instance %s/%s (peer %q) advertises consul-virtual=%s for service %q, which has NO assignment (row freed while still advertised; free list %v)", op.Desc, sn.Node, sn.ServiceID, sn.PeerName, adv.Address, dest, cur.free)
 			case got != adv.Address && prev.vipOf[sn.PeerName+"|"+dest] == adv.Address:
 				// the advertisement was right before this step and the service's assignment changed under it: rows
 				// are only ever removed by freeServiceVirtualIP, so it was freed while advertised and re-assigned
 				// (from the free list) within the same step
-				m.report(verifC07KeyVIPFreed, ent, "after %s: instance %s/%s (peer %q) advertises consul-virtual=%s for service %q, whose assignment was freed and re-made as %s within this step", op.Desc, sn.Node, sn.ServiceID, sn.PeerName, adv.Address, dest, got)
+				m.report(m.vipFreedKey(prev, cur, op, sn.PeerName, dest, after), ent, "after %s: instance %s/%s (peer %q) advertises consul-virtual=%s for service %q, whose assignment was freed and re-made as %s within this step", op.Desc, sn.Node, sn.ServiceID, sn.PeerName, adv.Address, dest, got)
 			case got != adv.Address:
 				m.report("C07/R4/advertised-ip-differs/after="+after, ent, "after %s: instance %s/%s (peer %q) advertises consul-virtual=%s, service %q is assigned %s", op.Desc, sn.Node, sn.ServiceID, sn.PeerName, adv.Address, dest, got)
 			}
@@ -917,6 +994,39 @@ func verifC07Feeder(ops []*vs.Op) func(m *verifC07Machine, i int) *vs.Op {
 }
 
 // verifC07Witnesses are fixed minimal histories of the known findings (run through the same step function).
+// vipFreedKey names the root cause of "an instance advertises an address its service no longer owns". The listed
+// finding (the address is assigned under the proxy's destination name but released under the removed instance's own
+// name) has one shape: THIS step removed a catalog instance that carries the destination's own name. An address
+// released by anything else - a gateway entry rewrite, a config entry write or delete, a registration - is a different
+// defect and is reported under its own key.
+func (m *verifC07Machine) vipFreedKey(prev, cur *verifC07View, op *vs.Op, peer, dest, after string) string {
+	// an instance named like the destination was removed by this step (it may have come back within the same step:
+	// a node taking over another node's ID deletes that node with its services before the new registration is stored)
+	for k, sn := range prev.svcByKey {
+		if sn.PeerName != peer || !strings.EqualFold(sn.ServiceName, dest) {
+			continue
+		}
+		if n, still := cur.svcByKey[k]; !still || !strings.EqualFold(n.ServiceName, dest) || n.ModifyIndex != sn.ModifyIndex && n.CreateIndex != sn.CreateIndex {
+			return verifC07KeyVIPFreed
+		}
+	}
+	// ... or a transaction stored such an instance and removed it again, so that neither view shows it
+	if op.Kind == vs.Txn && peer == "" {
+		set := map[string]bool{}
+		for _, t := range op.P.Txn {
+			switch {
+			case t.Service != nil && (t.Service.Verb == api.ServiceSet || t.Service.Verb == api.ServiceCAS) && strings.EqualFold(t.Service.Service.Service, dest):
+				set[strings.ToLower(t.Service.Node)] = true
+			case t.Service != nil && (t.Service.Verb == api.ServiceDelete || t.Service.Verb == api.ServiceDeleteCAS) && set[strings.ToLower(t.Service.Node)]:
+				return verifC07KeyVIPFreed
+			case t.Node != nil && (t.Node.Verb == api.NodeDelete || t.Node.Verb == api.NodeDeleteCAS) && set[strings.ToLower(t.Node.Node.Node)]:
+				return verifC07KeyVIPFreed
+			}
+		}
+	}
+	return "C07/R4/advertised-ip-released-by-other-path/after=" + after
+}
+
 func verifC07Witnesses() map[string][]*vs.Op {
 	em := *structs.DefaultEnterpriseMetaInDefaultPartition()
 	reg := func(idx uint64, node, peer string, svc *structs.NodeService) *vs.Op {
@@ -1028,6 +1138,17 @@ func verifC07Witnesses() map[string][]*vs.Op {
 		},
 		// term-gw lists api explicitly (with SNI) and a wildcard; registering api replaces the explicit row with a copy
 		// of the wildcard, deregistering it removes the link although the entry still lists api.
+		// web-1 is registered again under the same ID as service db: (typical, web) stays in kind-service-names and the
+		// instance's check keeps saying ServiceName web.
+		"witness-in-place-rename-keeps-old-name-rows": {
+			func() *vs.Op {
+				op := reg(12, "n1", "", typical("web"))
+				op.P.Reg.Checks = structs.HealthChecks{{Node: "n1", CheckID: "c1", Name: "c1", Status: api.HealthPassing, ServiceID: "web-1", ServiceName: "web"}}
+				op.Desc = ""
+				return op.Seal()
+			}(),
+			reg(13, "n1", "", &structs.NodeService{Service: "db", ID: "web-1", Port: 8080}),
+		},
 		"witness-explicit-gateway-link-overwritten-by-wildcard": {
 			cfg(12, &structs.TerminatingGatewayConfigEntry{Kind: structs.TerminatingGateway, Name: "term-gw", Services: []structs.LinkedService{{Name: "*"}, {Name: "api", SNI: "api.example"}}}),
 			reg(13, "n1", "", typical("api")),
@@ -1047,6 +1168,7 @@ var verifC07WitnessKeys = map[string]string{
 	"witness-ingress-topology-link-dropped":                 verifC07KeyIngressLinkDropped,
 	"witness-explicit-gateway-link-overwritten-by-wildcard": verifC07KeyExplicitOverwritten,
 	"witness-gateway-vip-tag-survives-entry-deletion":       verifC07KeyGatewayTagStale,
+	"witness-in-place-rename-keeps-old-name-rows":           verifC07KeyInPlaceRename,
 }
 
 func TestVerifC07Replay(t *testing.T) {
